@@ -43,6 +43,10 @@ Gen(d, L) ==
        \o Cross(cds, sub, LAMBDA cd, x : [t |-> SIf(cd[2], Tp, x.t), c |-> "ifE_" \o cd[1] \o "(" \o x.c \o ")"])
        \o Map(inl, LAMBDA x : [t |-> WhileLoop(L + 1, x.t), c |-> "while(" \o x.c \o ")"])
        \o Cross(<<0, 1, 2, 3, 4, 5, 6, 7>>, inl, LAMBDA v, x : [t |-> ForLoop(L + 1, v, x.t), c |-> "for" \o IntStr(v) \o "(" \o x.c \o ")"])
+       \* loops whose condition is a literal of each truthiness kind (a truthy one is left by break)
+       \o Map(SetToSeq(CondsOut), LAMBDA cd : [t |-> SWhile(cd[2], SBlock(<<Tp, SBreak>>)), c |-> "while-lit_" \o cd[1]])
+       \o Map(SetToSeq(CondsOut), LAMBDA cd : [t |-> SFor(None, cd[2], None, SBlock(<<Tp, SBreak>>)), c |-> "for-lit_" \o cd[1]])
+       \o Map(SetToSeq(CondsOut), LAMBDA cd : [t |-> SFor(SVar(Cnt(L + 1), Lit(N(0))), cd[2], Asg(Cnt(L + 1), Bin("+", Id(Cnt(L + 1)), Lit(N(1)))), SBlock(<<Tp, SIf(Bin(">=", Id(Cnt(L + 1)), Lit(N(1))), SBreak, None)>>)), c |-> "forfull-lit_" \o cd[1]])
        \o Map(sub, LAMBDA x : [t |-> SBlock(<<x.t, Tp>>), c |-> "{" \o x.c \o ";T}"])
        \o Map(sub, LAMBDA x : [t |-> SBlock(<<Tp, x.t>>), c |-> "{T;" \o x.c \o "}"])
        \o (IF L = 0 THEN <<>> ELSE     \* a jump of THIS loop executed after an inner construct has finished
@@ -67,7 +71,7 @@ Tag(t) == IF t.k = "none" THEN t
           ELSE [t EXCEPT !.c = [i \in 1..Len(t.c) |-> Tag(t.c[i])]]
 
 Cases == Gen(Depth, 0) \o SetToSeq(Stray)
-Programs == [i \in 1..Len(Cases) |-> Tag(LayoutProg(<<Tp, Cases[i].t, Tp>>, 1))]
+Programs == TLCEval([i \in 1..Len(Cases) |-> Tag(LayoutProg(<<Tp, Cases[i].t, Tp>>, 1))])
 FamProgOf(i) == Programs[i]
 
 Init == \E i \in 1..Len(Programs) : InitSem(i, <<>>, FALSE)
